@@ -81,6 +81,22 @@ MS_FIELDS = ["width", "fcs", "azimuths", "fft_n"]
 DATA_PARTS = ("type", "frequency", "amplitude", "masks", "peaks", "azimuths")
 
 
+def _decoy():
+    Ld, dtd = 48, 0.02
+    recs = [SeismicRecording3C(TimeSeries(A.sig_array("noise2", Ld) + 0.3, dtd),
+                               TimeSeries(A.sig_array("noise3", Ld) - 0.2, dtd),
+                               TimeSeries(A.sig_array("noise1", Ld) + 0.1, dtd)) for _ in range(2)]
+    sm = dict(operator="linear_rectangular", bandwidth=3.0, center_frequencies_in_hz=[4.0, 9.0])
+    for cls, kw in ((hvsrpy.HvsrTraditionalProcessingSettings, dict(method_to_combine_horizontals="squared_average")),
+                    (hvsrpy.HvsrDiffuseFieldProcessingSettings, {}),
+                    (hvsrpy.HvsrTraditionalSingleAzimuthProcessingSettings, dict(azimuth_in_degrees=77.0))):
+        try:
+            hvsrpy.process(recs, cls(window_type_and_width=["tukey", 0.77], smoothing=dict(sm),
+                                     fft_settings={"n": 96}, **kw))
+        except Exception:       # noqa: BLE001 - a decoy must never disturb the judgement
+            pass
+
+
 def path_of(kind):
     if kind.startswith("fd:"):
         return "frequency-domain"
@@ -529,6 +545,12 @@ class System:
             s.fft_settings = {"n": None}
         else:
             s.fft_settings = {"n": int(n_used)}
+        # Decoy calls: process unrelated recordings of ANOTHER length, time step, taper width and kind
+        # first.  On code without hidden process-global state this changes nothing; a module- or
+        # class-level cache keyed too coarsely (most-recent taper, filter design, ...) is refreshed
+        # here, so the reference no longer shares the judged call's stale entry.
+        _decoy()
+        ctx.count("decoy_calls")
         res = run_process(recs, s)
         ctx.count("transitions")
         ctx.count("fresh_reference_computed")
